@@ -84,9 +84,14 @@ type DefinedFromBase EBase
 type AliasOfInst = GBase[string]
 type AliasOfInst2 = GBase2[int, string]
 type AliasOfStructInst = GStruct[int]
+
+// parenthesised type expressions are legal Go
+type ParenIface (interface{ PI() })
+type ParenBasic (int)
+type ParenFunc (func(int) error)
 """
 SUPPORT_IFACES = {"GBase", "GBase2", "EBase"}          # mockable, names without Inc/Exc
-BYSTANDERS = {"AliasOfBase", "DefinedFromBase", "AliasOfInst", "AliasOfInst2", "AliasOfStructInst"}          # ignored in comparisons
+BYSTANDERS = {"AliasOfBase", "DefinedFromBase", "AliasOfInst", "AliasOfInst2", "AliasOfStructInst", "ParenIface", "ParenBasic", "ParenFunc"}          # ignored in comparisons
 
 
 def table_package():
@@ -129,7 +134,7 @@ def gen_table_cases(ctx):
         rest = [c for c in uniq if not c.get("root_conflict")]
         rng.shuffle(rest)
         uniq = keep + rest[:max(10, len(rest) // 4)]
-    return [dict(c, kind="table", listing=rng.choice(["some", "some", "none"])) for c in uniq]
+    return [dict(c, kind="table", listing=rng.choice(["some", "some", "none"]), gen_header=(k % 2 == 1)) for k, c in enumerate(uniq)]
 
 
 def eval_table(ctx, case):
@@ -152,6 +157,9 @@ def eval_table(ctx, case):
     if listed:
         pk["interfaces"] = listed
     cfg = dict(root_cfg, packages={MOD + "/tbl": pk})
+    if case.get("gen_header"):
+        # the interfaces live in machine-generated source (protoc-gen-go-grpc, oapi-codegen ...): the header says nothing about what is selected
+        src = "// Code generated by protoc-gen-go-grpc. DO NOT EDIT.\n// versions:\n// - protoc-gen-go-grpc v1.5.1\n\n" + src
     files = {"tbl/tbl.go": src, "other/o.go": "package other\n\ntype NotConfiguredInc interface{ M() }\n",
              "probe.templ": probe.probe_template("A"), ".mockery.yml": json.dumps(cfg)}
     root = core.scratch_module(ctx, files)
@@ -240,6 +248,8 @@ def dir_files(path, cls):
     pk = "".join(ch for ch in name if ch.isalnum())
     a = "package %s\n\ntype SvcOne interface{ A() }\n\ntype SvcTwo interface{ B(x int) }\n\ntype Helper interface{ H() }\n\ntype Cfg struct{}\n" % pk
     if cls == "go":
+        if len(path) % 2 == 0:   # every second package is machine-generated source; it also declares a parenthesised type
+            a = "// Code generated by oapi-codegen version v2.4.1 DO NOT EDIT.\n\n" + a + "\ntype Count (int)\n"
         return {path + "/a.go": a}, ["SvcOne", "SvcTwo", "Helper"]
     if cls == "testonly":
         return {path + "/a_test.go": a}, []
